@@ -36,7 +36,7 @@ func (s *PreprocessSchema[F, T]) process(ctx *p.SchemaCtx) {
 func (s *PreprocessSchema[F, T]) validate(ctx *p.SchemaCtx) {
 	out, err := s.fn(ctx.ValPtr.(F), ctx)
 	if err != nil {
-		ctx.AddIssue(ctx.Issue().SetMessage(err.Error()))
+		ctx.AddIssue(ctx.IssueFromUnknownError(err))
 		return
 	}
 	switch v := ctx.ValPtr.(type) {
